@@ -536,9 +536,16 @@ func ruleR21(c *Ctx) *RuleResult {
 						direct = true
 					}
 				}
+				// the height-changed signal is the function's last result (the only one, or the flag beside a returned node)
+				lastRes := func() *Term {
+					if g.Exit.Op == "return" && len(g.Exit.Args) > 0 {
+						return g.Exit.Args[len(g.Exit.Args)-1]
+					}
+					return nil
+				}
 				if direct {
 					nlink++
-					if g.Exit.String() != "(return #:true)" {
+					if lr := lastRes(); lr == nil || lr.String() != "#:true" {
 						bad = append(bad, rec.name+" links/unlinks a node directly but does not report the height change (return true): "+trunc(g.String(), 260))
 					}
 				}
@@ -555,6 +562,9 @@ func ruleR21(c *Ctx) *RuleResult {
 						if x.Op == "!" {
 							x, pol = x.Args[0], false
 						}
+						if x.Op == "ext" && len(x.Args) == 1 && x.Args[0].Op == "res" {
+							x = x.Args[0] // the flag among several results
+						}
 						if x.Op == "res" && x.Args[0].String() == ef.String() {
 							if pol {
 								sig = 1
@@ -567,14 +577,15 @@ func ruleR21(c *Ctx) *RuleResult {
 					case 0:
 						bad = append(bad, rec.name+": the height-changed result of the recursive "+nm+" is not tested")
 					case -1:
-						if g.Exit.String() != "(return #:false)" {
+						if lr := lastRes(); lr == nil || lr.String() != "#:false" {
 							bad = append(bad, rec.name+": no height change below, yet the frame does not return false")
 						}
 					case 1:
 						okFix := false
 						for _, e2 := range g.Effects[i+1:] {
 							if n2, a2, ok2 := effDo(e2); ok2 && n2 == rec.fix && len(a2) == 2 && a2[1].String() == rec.qpIdx {
-								okFix = g.Exit.Op == "return" && len(g.Exit.Args) == 1 && g.Exit.Args[0].Op == "res" && g.Exit.Args[0].Args[0].String() == e2.String()
+								lr := lastRes()
+								okFix = lr != nil && lr.Op == "res" && lr.Args[0].String() == e2.String()
 							}
 						}
 						if !okFix {
